@@ -31,11 +31,12 @@ TIME_CAP = {"quick": 45, "thorough": 780}
 REQUIRED = ["histories", "histories_S0", "histories_S1", "histories_S2", "histories_S3", "histories_S4", "histories_long", "long_history_steps",
             "observations_hot", "reset_oracle_evals", "cold_oracle_evals", "cold_queries_sent", "cold_fresh_interpreter_crosschecks",
             "ops_applied", "effective_op_observed", "distinct_ops_exercised"]
-RULE = ("history = JSON steps over the pool (160 operations in 63 groups = every settings attribute of the statement with >= 2 values, and every "
-        "registration / removal API with add, replace, remove variants; 247 observations on 51 types). Shapes: S0 `X1;X2`, S1 `op;X`, S2 `X1;op;X2`, "
-        "S3 `X1;op1;op2;X2`, S4 `op1;X1;op2;X2` with X over the observations of the types the last operation can affect, op pairs over operations "
-        "sharing a type; long = 50-200 random steps over 2-4 type families. A case = (steps up to and including one observation); non-trivial when at "
-        "least one operation precedes the observation; distinct by hash of the steps.")
+RULE = ("history = JSON steps over the pool module vf/c09_pool.py (operation alphabet: every settings attribute of the statement with >= 2 values, every "
+        "registration / removal API with add, replace and remove variants -- counts in coverage.pool; observations: deserialize of valid and invalid data, "
+        "serialize, both schemas on ~55 types each sensitive to one registry). Shapes: S0 `X1;X2`, S1 `op;X`, S2 `X1;op;X2`, S3 `X1;op1;op2;X2`, "
+        "S4 `op1;X1;op2;X2` with X over the observations of the types the last operation can affect and op pairs over operations sharing a type; "
+        "long = 50-200 random steps over 2-4 type families. A case = the steps up to and including one observation; non-trivial when at least one "
+        "operation precedes the observation; distinct by hash of the steps.")
 ASSUMPTIONS = ["the cold start is the state right after importing apischema and the pool module in a fresh interpreter (the pool registers a few conversions / "
                "object fields at import through the public API and never observes)",
                "operations are replayed by name with the same arguments in the same order; registrations apischema cannot undo are never undone",
@@ -473,7 +474,7 @@ def reset_call_diagnostic(env):
         by_group.setdefault(P.op_group(op), []).append(op)
     for g, members in by_group.items():
         for b in members:
-            for ctx in [[]] + [[a] for a in members if a is not b]:
+            for ctx in [[]] + [[a] for a in members if a is not b][:2]:
                 r = fork_call(lambda ctx=ctx, b=b: probe(ctx, b), 20)
                 if isinstance(r, int):
                     env.count(f"diag_reset|{P.op_kind(b)}|{'called' if r else 'not_called'}")
@@ -579,6 +580,12 @@ def run(env):
         execute(*shorts[i])
     flush()
     env.count("distinct_ops_exercised", len(exercised))
+    if env.shard == 0:
+        env.count("pool|operations", len(P.OPS))
+        env.count("pool|operation_groups", len({P.op_group(o) for o in P.OPS}))
+        env.count("pool|operation_kinds", len({P.op_kind(o) for o in P.OPS}))
+        env.count("pool|types", len(P.TYPES))
+        env.count("pool|observations", len(P.ALL_OBS))
     for k in exercised:
         env.count("opseen|" + hashlib.blake2b(k.encode(), digest_size=6).hexdigest())
     if env.shard == 0:
@@ -600,6 +607,7 @@ def finish_coverage(cov, counters, tier):
             _, op, what = k.split("|")
             diag.setdefault(op, {"called": 0, "not_called": 0})[what] += v
             del c[k]
+    cov["pool"] = {k.split("|")[1]: c.pop(k) for k in list(c) if k.startswith("pool|")}
     seen = [k for k in c if k.startswith("opseen|")]
     for k in seen:
         del c[k]
